@@ -42,6 +42,13 @@ Theorem weight_pairing : forall l l', Permutation l l' -> req (mean l) (mean l')
 Proof. exact mean_perm. Qed.
 Print Assumptions weight_pairing.
 
+(* the weights need not be normalised: a common factor (of magnitude at least one, so that the sum stays clear of the
+   zero threshold) changes nothing *)
+Theorem weights_need_not_be_normalised : forall c l p, (1 <= Qabs c)%Q -> mean l = RPos p ->
+  exists p', mean (scale_w c l) = RPos p' /\ peq p' p.
+Proof. exact scale_free_lemma. Qed.
+Print Assumptions weights_need_not_be_normalised.
+
 (* particles that represent no atoms (virtual sites) are left alone and change nothing for the others: the particles
    with constituents get exactly the positions they would get without them *)
 Theorem graphless_particles_do_not_disturb : forall ps,
